@@ -2,6 +2,7 @@ package main
 
 import (
 	"fmt"
+	"os"
 	"sort"
 	"go/constant"
 	"go/token"
@@ -704,6 +705,9 @@ func (ip *Interp) callFunction(fn *ssa.Function, args []Value, env []Value) Valu
 	}
 	if !ip.fnSeen[fn.String()] {
 		ip.fnSeen[fn.String()] = true
+	}
+	if ip.cfg.Debug && strings.Contains(fn.String(), "internetarchive/Zeno") && !strings.Contains(fn.String(), "verifrt") {
+		fmt.Fprintf(os.Stderr, "[debug] %s%s %s\n", strings.Repeat(" ", ip.depth%40), ip.cur.name, fn.String())
 	}
 	ip.depth++
 	if ip.depth > maxDepth {
